@@ -28,9 +28,31 @@ inductive WireKind
   | stalledWrite
 deriving DecidableEq, Repr
 
-/-- The letters of the harness (zz_verif_keepalive_http_test.go: khKinds, `w`, `R`). -/
-def wireKindOf (c : Char) : Option WireKind :=
-  if c == 'j' || c == 's' then some .result
+/-- How the streamable SERVER transport is configured (family `shttp`, `mode=`). -/
+inductive ServerMode
+  /-- stateful, no EventStore -/
+  | plain
+  /-- stateful with an EventStore (legacy protocol versions: messages are appended to the store before delivery) -/
+  | store
+  /-- `StreamableHTTPOptions.Stateless`: a temporary session per POST -/
+  | stateless
+deriving DecidableEq, Repr
+
+/-- What `streamableServerConn.Write` makes of a server-initiated ping when the client has NO standalone stream
+open (mcp/streamable.go): a stateless connection refuses every outgoing call (`ErrRejected: stateless servers
+cannot make requests`); a stateful one without a store cannot deliver it (`ErrRejected: undelivered message`); with
+an EventStore the message is appended to the store, which counts as delivered — Write returns nil and the ping
+waits, unanswered, for its timeout. -/
+def absentStream : ServerMode → WireKind
+  | .plain => .refused
+  | .store => .silent
+  | .stateless => .refused
+
+/-- The letters of the harness (zz_verif_keepalive_http_test.go: khKinds, `w`, `R`, and `G` = the client has no
+standalone stream open at that tick, read according to the server's mode). -/
+def wireKindOf (mode : ServerMode) (c : Char) : Option WireKind :=
+  if c == 'G' then some (absentStream mode)
+  else if c == 'j' || c == 's' then some .result
   else if c == 'J' || c == 'S' || c == '4' || c == '0' || c == '5' || c == 'i' || c == 'k' then some .unsupported
   else if c == 'x' || c == 'y' || c == 'z' || c == 'r' || c == 't' then some .otherError
   else if c == 'R' then some .refused
@@ -51,11 +73,11 @@ def reading (k : WireKind) (d : Nat) : Script :=
   | .stalledWrite => { kind := .answer, delay := none }
 
 /-- One `wire=` element: `<letter><delay>[c<content-type spelling>]`, or the bare letters `n`, `w`. -/
-def parseWireEl (s : String) : Option (WireKind × Nat) :=
+def parseWireEl (mode : ServerMode) (s : String) : Option (WireKind × Nat) :=
   match s.toList with
   | [] => none
   | c :: rest =>
-    match wireKindOf c with
+    match wireKindOf mode c with
     | none => none
     | some k =>
       if rest.isEmpty then some (k, 0)
@@ -66,8 +88,16 @@ def parseWireEl (s : String) : Option (WireKind × Nat) :=
         else if tail.isEmpty || tail.head? == some 'c' then (String.ofList ds).toNat?.map fun d => (k, d)
         else none
 
-def parseWire (s : String) : Option (List (WireKind × Nat)) :=
-  if s == "-" then some [] else (s.splitOn ",").mapM parseWireEl
+def parseWire (mode : ServerMode) (s : String) : Option (List (WireKind × Nat)) :=
+  if s == "-" then some [] else (s.splitOn ",").mapM (parseWireEl mode)
+
+def parseMode (s : Option String) : Option ServerMode :=
+  match s with
+  | none => some .plain
+  | some "plain" => some .plain
+  | some "store" => some .store
+  | some "stateless" => some .stateless
+  | some _ => none
 
 /-- The outcome pattern a wire script amounts to. -/
 def readWire (w : List (WireKind × Nat)) : List Script := w.map fun p => reading p.1 p.2
